@@ -56,7 +56,8 @@ def main():
             if os.path.exists(meta_path):
                 meta = json.load(open(meta_path))
                 mutants.append({'name': 'seeded/' + name, 'patch': os.path.join(seeded_dir, name, 'patch.diff'),
-                                'expect': [meta['property']] + meta.get('also', [])})
+                                'expect': meta['expect_checks'] if 'expect_checks' in meta
+                                else [meta['property']] + meta.get('also', [])})
     if args.only:
         wanted = set(args.only.split(','))
         mutants = [m for m in mutants if m['name'] in wanted]
